@@ -1464,6 +1464,53 @@ XPath::getMatchScore(
 
 
 
+XPath::eMatchScore
+XPath::getMatchScore(
+            XalanNode*              node,
+            const PrefixResolver&   resolver,
+            XPathExecutionContext&  executionContext,
+            XalanSize_t             theAlternative) const
+{
+    if(m_expression.getOpCodeMapValue(0) != XPathExpression::eOP_MATCHPATTERN)
+    {
+        // This reports the error...
+        return getMatchScore(node, resolver, executionContext);
+    }
+    else
+    {
+        assert(node != 0);
+
+        eMatchScore     score = eMatchScoreNone;
+
+        // Find the alternative...
+        OpCodeMapPositionType   opPos =
+            m_expression.getInitialOpCodePosition() + 2;
+
+        while(theAlternative > 0 &&
+              m_expression.getOpCodeMapValue(opPos) == XPathExpression::eOP_LOCATIONPATHPATTERN)
+        {
+            opPos = m_expression.getNextOpCodePosition(opPos);
+
+            --theAlternative;
+        }
+
+        if (m_expression.getOpCodeMapValue(opPos) == XPathExpression::eOP_LOCATIONPATHPATTERN)
+        {
+            // Push and pop the PrefixResolver...
+            const PrefixResolverSetAndRestore   theSetAndRestore(
+                                                    executionContext,
+                                                    executionContext.getPrefixResolver(),
+                                                    &resolver);
+
+            score = locationPathPattern(executionContext, *node, opPos);
+        }
+
+        return score;
+    }
+}
+
+
+
 inline const XalanDOMString*
 getStringFromTokenQueue(
             const XPathExpression&          expression,
